@@ -9,7 +9,7 @@ test -x /venv/bin/python
 mkdir -p evidence out
 fail=0
 for f in spec/*.tla; do
-  if ! java -cp /opt/veriftools/tla/tla2tools.jar:/opt/veriftools/tla/CommunityModules-deps.jar tla2sany.SANY "$f" >/tmp/verif-sany.$$ 2>&1; then
+  if ! (cd spec && java -cp /opt/veriftools/tla/tla2tools.jar:/opt/veriftools/tla/CommunityModules-deps.jar tla2sany.SANY "$(basename "$f")") >/tmp/verif-sany.$$ 2>&1; then
     echo "SANY failed on $f"; tail -20 /tmp/verif-sany.$$; fail=1
   fi
 done
